@@ -28,6 +28,11 @@ pub enum Op {
     Flatten,
     Clone,
     IntoIter,
+    /// bundle the whole stack (structured probes only, never offered to the search)
+    MultipleAll,
+    /// `.at("")`: a location that renders as the empty string is still a location
+    /// (structured probes only)
+    AtEmpty,
     /// `add_sibling_alts_for_unknown_field` on a bundle (what a `flatten` member's parent does):
     /// the tree keeps its shape, locations and spans
     AddAlts,
@@ -183,6 +188,7 @@ impl Machine {
             },
             // only where it has something to walk: a bundle that contains a bundle
             Op::AddAlts => matches!(model.last(), Some(RT::Multi { kids, .. }) if kids.iter().any(|k| matches!(k, RT::Multi { .. }))),
+            Op::MultipleAll | Op::AtEmpty => false,
         }
     }
     pub fn apply(&mut self, op: Op) {
@@ -207,6 +213,11 @@ impl Machine {
                 self.real.push(e.at(&name));
                 self.model.last_mut().unwrap().locs_mut().insert(0, name);
             }
+            Op::AtEmpty => {
+                let e = self.real.pop().unwrap();
+                self.real.push(e.at(""));
+                self.model.last_mut().unwrap().locs_mut().insert(0, String::new());
+            }
             Op::WithSpan => {
                 let sid = self.next_span % 3;
                 self.next_span += 1;
@@ -227,6 +238,13 @@ impl Machine {
                 let es: Vec<Error> = self.real.drain(at..).collect();
                 self.real.push(Error::multiple(es));
                 let mut ms: Vec<RT> = self.model.drain(at..).collect();
+                self.model.push(if k == 1 { ms.pop().unwrap() } else { RT::Multi { kids: ms, locs: vec![], span: None } });
+            }
+            Op::MultipleAll => {
+                let es: Vec<Error> = self.real.drain(..).collect();
+                let k = es.len();
+                self.real.push(Error::multiple(es));
+                let mut ms: Vec<RT> = self.model.drain(..).collect();
                 self.model.push(if k == 1 { ms.pop().unwrap() } else { RT::Multi { kids: ms, locs: vec![], span: None } });
             }
             Op::Flatten => {
@@ -560,6 +578,7 @@ fn model_step(model: &[RT], hist: &[Op], op: Op) -> Vec<RT> {
             m.push(t);
         }
         Op::AddAlts => {}
+        Op::MultipleAll | Op::AtEmpty => unreachable!("not offered to the search"),
         Op::IntoIter => match m.pop().unwrap() {
             RT::Multi { kids, .. } => m.extend(kids),
             leaf => m.push(leaf),
@@ -658,6 +677,74 @@ pub fn explore(prop: &'static str, depth: usize, spans: bool, only_spans: bool) 
     (t, json!({"stateright_unique_states": states, "stateright_max_depth": maxd, "history_depth_bound": depth}))
 }
 
+/// Wide and deep trees beyond the depth of the exhaustive search: bundles of 4..130 members,
+/// nesting to 65 levels, bundles of located bundles; each with and without spans / flattening.
+pub fn structured(prop: &'static str, spans: bool, only_spans: bool) -> Tally {
+    let sizes = [4usize, 5, 8, 9, 16, 17, 32, 33, 64, 65, 130];
+    let mut hists: Vec<Vec<Op>> = vec![];
+    for &w in &sizes {
+        for tail in [vec![], vec![Op::At], vec![Op::At, Op::WithSpan], vec![Op::WithSpan, Op::At, Op::Flatten], vec![Op::At, Op::Flatten, Op::Flatten]] {
+            // w plain leaves, every third located, every fifth arriving from syn
+            let mut h = vec![];
+            for i in 0..w {
+                h.push(if i % 5 == 4 { Op::SynLeaf } else { Op::Leaf });
+                if i % 3 == 1 {
+                    h.push(Op::At);
+                }
+                if spans && i % 4 == 2 {
+                    h.push(Op::WithSpan);
+                }
+            }
+            h.push(Op::MultipleAll);
+            h.extend(tail.iter().copied());
+            hists.push(h);
+            // w/2 located pairs, bundled
+            let mut h = vec![];
+            for _ in 0..w / 2 {
+                h.extend([Op::Leaf, Op::Leaf, Op::Multiple2, Op::At]);
+            }
+            h.push(Op::MultipleAll);
+            h.extend(tail.iter().copied());
+            hists.push(h);
+        }
+    }
+    for &d in &[4usize, 5, 8, 9, 16, 17, 33, 65] {
+        for tail in [vec![], vec![Op::Flatten], vec![Op::WithSpan, Op::Flatten]] {
+            let mut h = vec![Op::Leaf];
+            for i in 0..d {
+                h.extend([Op::Leaf, Op::Multiple2, if i % 2 == 0 { Op::At } else { Op::AtSame }]);
+            }
+            h.extend(tail.iter().copied());
+            hists.push(h);
+        }
+    }
+    // locations that render as the empty string: alone, first, last, on a bundle
+    for h in [
+        vec![Op::Leaf, Op::AtEmpty],
+        vec![Op::Leaf, Op::AtEmpty, Op::At],
+        vec![Op::Leaf, Op::At, Op::AtEmpty],
+        vec![Op::Leaf, Op::AtEmpty, Op::AtEmpty],
+        vec![Op::Leaf, Op::Leaf, Op::Multiple2, Op::AtEmpty],
+        vec![Op::Leaf, Op::AtEmpty, Op::Leaf, Op::Multiple2, Op::AtEmpty, Op::Flatten],
+        vec![Op::Leaf, Op::Leaf, Op::AtEmpty, Op::Multiple2, Op::At, Op::Leaf, Op::Multiple2, Op::AtEmpty],
+    ] {
+        hists.push(h);
+    }
+    let mut t = Tally::default();
+    for h in hists {
+        t.evaluations += 1;
+        t.traces += 1;
+        t.nontrivial += 1;
+        t.hit("structured_trees");
+        match catch(std::panic::AssertUnwindSafe(|| check_history(&h, spans, only_spans))) {
+            Ok(Ok(())) => {}
+            Ok(Err(msg)) => t.violate(violation(prop, &h, msg)),
+            Err(p) => t.violate(violation(prop, &h, format!("panic: {p}"))),
+        }
+    }
+    t
+}
+
 pub fn replay(case: &serde_json::Value, spans: bool, only_spans: bool) -> bool {
     let hist: Vec<Op> = serde_json::from_value(case["hist"].clone()).unwrap();
     match catch(std::panic::AssertUnwindSafe(|| check_history(&hist, spans, only_spans))) {
@@ -685,6 +772,7 @@ pub fn main(args: &Args) {
     let depth = args.tier.pick(8, 9);
     let (t, extra) = explore("C04", depth, false, false);
     rep.absorb(t);
+    rep.absorb(structured("C04", false, false));
     for (k, v) in extra.as_object().unwrap() {
         rep.set(k, v.clone());
     }
